@@ -317,6 +317,13 @@ and "the previous token was FROM / JOIN / an arming comma" -/
 structure TP where
   armed : List Bool := [false]
   after : Bool := false
+  prev : Str := []     -- the previous token of the scanner, lower-cased ("" at the start)
+
+/-- statement kinds that take a table reference without FROM, where a statement can start (dc0b275) -/
+def stmtKinds : List Str := Arc.Generated.C14.tableRefStatementKind.map String.toList
+def stmtStartsAfter : List Str := Arc.Generated.C14.statementStartsAfter.map String.toList
+def armsLikeFrom (prev l : Str) : Bool :=
+  l == "from".toList || l == "join".toList || (stmtStartsAfter.contains prev && stmtKinds.contains l)
 
 def TP.cur (s : TP) : Bool := s.armed.headD false
 def TP.setCur (s : TP) (b : Bool) : TP := { s with armed := b :: s.armed.tail }
@@ -324,17 +331,17 @@ def TP.setCur (s : TP) (b : Bool) : TP := { s with armed := b :: s.armed.tail }
 /-- a string literal, or a quoted identifier that is not a valid name, in table position -/
 def badInTablePos : TP → List Tok → Bool
   | _, [] => false
-  | s, .lparen :: r => badInTablePos { armed := false :: s.armed, after := false } r
+  | s, .lparen :: r => badInTablePos { armed := false :: s.armed, after := false, prev := ['('] } r
   | s, .rparen :: r =>
-      badInTablePos { armed := (match s.armed with | _ :: b :: bs => b :: bs | a => a), after := false } r
-  | s, .comma :: r => badInTablePos { s with after := s.cur } r
-  | s, .str _ :: r => s.after || badInTablePos { s with after := false } r
-  | s, .qident q :: r => (s.after && !validName q) || badInTablePos { s with after := false } r
+      badInTablePos { armed := (match s.armed with | _ :: b :: bs => b :: bs | a => a), after := false, prev := [')'] } r
+  | s, .comma :: r => badInTablePos { s with after := s.cur, prev := [','] } r
+  | s, .str _ :: r => s.after || badInTablePos { s with after := false, prev := ['\''] } r
+  | s, .qident q :: r => (s.after && !validName q) || badInTablePos { s with after := false, prev := ['"'] } r
   | s, .word w :: r =>
       let l := lowerAscii w
-      if l == "from".toList || l == "join".toList then badInTablePos { (s.setCur true) with after := true } r
-      else if terminators.contains l then badInTablePos { (s.setCur false) with after := false } r
-      else badInTablePos { s with after := false } r
+      if armsLikeFrom s.prev l then badInTablePos { (s.setCur true) with after := true, prev := l } r
+      else if terminators.contains l then badInTablePos { (s.setCur false) with after := false, prev := l } r
+      else badInTablePos { s with after := false, prev := l } r
   | s, .semi :: r => badInTablePos s r
   | s, .other _ :: r => badInTablePos s r
 
